@@ -148,7 +148,12 @@ def step (st : St) (line : String) : St × List String :=
         -- certificate check of the lowering of this program (see Model/LowerCheck.lean)
         match lower st.b with
         | .error _ => (st, ["lcheck n/a"])
-        | .ok l => (st, [if lowerCheck st.b l && l.ops.toList.all opWF then "lcheck ok" else "lcheck FAIL"])
+        | .ok l =>
+          -- also: topological order of the expression graph and well-formedness of the *final* ops
+          -- (hypotheses of `P3R.C02.run_values_denote`)
+          let fin := (optimize l.ops l.privRows.toList).1
+          (st, [if lowerCheck st.b l && l.ops.toList.all opWF && dagOk st.b.nodes && fin.toList.all opWF
+                then "lcheck ok" else "lcheck FAIL"])
       | "fcheck", [] =>
         -- certificate check of the fusion pass on this program (see Model/FusionCheck.lean)
         match lower st.b with
